@@ -493,6 +493,7 @@ func init() {
 		}
 		return []Value{App("str.hasprefix", BoolSort, s, p)}
 	}
+	models["(github.com/cometbft/cometbft/libs/bytes.HexBytes).Bytes"] = func(e *Exec, a []Value) []Value { return []Value{a[0]} }
 	models["time.Now"] = func(e *Exec, a []Value) []Value {
 		return []Value{e.symTimeOracle("oracle.time.Now")}
 	}
